@@ -66,6 +66,9 @@ func (pe *shellVariablesEncoder) doEncode(w *io.Writer, node *CandidateNode, pat
 		for index := 0; index < len(node.Content); index = index + 2 {
 			key := node.Content[index]
 			value := node.Content[index+1]
+			if err := scalarKeyOnly(key, "shell variables"); err != nil {
+				return err
+			}
 			err := pe.doEncode(w, value, appendPath(path, key.Value))
 			if err != nil {
 				return err
